@@ -89,118 +89,139 @@ def r1(ctx):
 GROUP_SPEC = {6: ("with_hour", 0, 23), 7: ("with_minute", 0, 59), 8: ("with_second", 0, 59)}
 
 
-def r2(ctx):
+class _Days:
+    def __init__(self, n):
+        self.n = n
+
+
+class _Date:
+    """mock calendar date: `today` shifted by a number of days"""
+
+    def __init__(self, off=0, ymd=None):
+        self.off, self.ymd = off, ymd
+
+    def __sub__(self, d):
+        return _Date(self.off - d.n, self.ymd)
+
+    def __add__(self, d):
+        return _Date(self.off + d.n, self.ymd)
+
+    def key(self):
+        return ("today%+d" % self.off) if self.ymd is None else self.ymd
+
+
+def _parse_datetime_scenarios(ctx):
+    """(start, finish) of parse_datetime read off its source by the finite interpreter, with regex captures, chrono and
+    chrono_english mocked by their contracts.  A datetime is (date key, h, m, s)."""
+    import interp
     hir = ctx.anchor_hir(PARSE_DATETIME)
-    groups = {}
-    for m in find_matches(hir):
-        sc = peel(m["scrut"], methods=False)
-        if sc["k"] == "MCall" and sc["m"] == "get" and sc["args"] and peel(sc["args"][0])["k"] == "Lit":
-            n = peel(sc["args"][0])["v"]
-            info = {}
-            for a in match_arms(m):
-                arm = "none" if any("None" in key_name(k) for k in a["keys"]) or a["keys"] == ["_"] else "some"
-                asg = {}
-                for x in walk_exprs(a["body"]):
-                    if x["k"] == "Assign":
-                        l = peel(x["l"], methods=False)
-                        if l["k"] == "Path" and l.get("rk") == "Local":
-                            asg[l["res"]] = peel(x["r"], methods=False)
-                info[arm] = asg
-            groups[n] = (info, m)
-    ctx.floor(len(groups), 3, "optional time components (cap.get(n) matches)", PARSE_DATETIME)
-    # with_hour/minute/second chains of the two bounds
-    chains = []
-    for x in walk(hir):
-        if x["k"] == "Let" and x["pat"]["k"] == "Bind" and "init" in x:
-            d = {}
-            for c in walk_exprs(x["init"]):
-                if c["k"] == "MCall" and c["m"] in ("with_hour", "with_minute", "with_second") and c["args"]:
-                    a = peel(c["args"][0], methods=False)
-                    if a["k"] == "Path" and a.get("rk") == "Local":
-                        d[c["m"]] = a["res"]
-            if len(d) == 3:
-                chains.append((x["pat"]["id"], d, x))
-    # the pair returned as Ok((start, finish)); a binding of a tuple pattern matched against (a, b) stands for a / b
-    cid = [c[0] for c in chains]
-    alias = {}
-    for m in find_matches(hir, min_arms=1, source=None):
-        sc = peel(m["scrut"], methods=False)
-        if sc["k"] == "Tup":
-            src = [peel(e, methods=False).get("res") for e in sc["es"]]
-            for a in m["arms"]:
-                p = a["pat"]
-                if p["k"] == "PTup" and len(p["subs"]) == len(src):
-                    for sub, s_ in zip(p["subs"], src):
-                        for b in walk(sub):
-                            if b["k"] == "Bind":
-                                alias[b["id"]] = s_
-    pair = None
-    for x in walk_exprs(hir):
-        if x["k"] == "Call" and x.get("ctor") and short(x["callee"], 1) == "Ok" and x["args"]:
-            t = peel(x["args"][0], methods=False)
-            if t["k"] == "Tup" and len(t["es"]) == 2:
-                ids = [peel(e, methods=False).get("res") for e in t["es"]]
-                ids = [alias.get(i, i) for i in ids]
-                if ids[0] in cid and ids[1] in cid:
-                    pair = ids
-    if pair is None or len(chains) < 2:
-        ctx.violation("anchor/interval-construction", PARSE_DATETIME,
-                      "cannot find the with_hour/with_minute/with_second construction of (start, finish)")
-        raise Abort()
-    start_chain = [c for c in chains if c[0] == pair[0]][0][1]
-    finish_chain = [c for c in chains if c[0] == pair[1]][0][1]
-    n = 0
-    for g, (unit, lo, hi) in GROUP_SPEC.items():
-        if g not in groups:
-            ctx.violation("interval/group-%d" % g, ctx.where(PARSE_DATETIME), "capture group %d (%s) is never read" % (g, unit))
+    pid = ctx.prog.fns[PARSE_DATETIME]["params"][0]["id"]
+    out = {}
+    scen = {
+        "today": None, "yesterday": None, "+3": None, "-2": None,
+        "2023-05-06": {1: "2023", 2: "-", 3: "05", 4: "-", 5: "06"},
+        "2023-05-06 13": {1: "2023", 2: "-", 3: "05", 4: "-", 5: "06", 6: "13"},
+        "2023-05-06 13:14": {1: "2023", 2: "-", 3: "05", 4: "-", 5: "06", 6: "13", 7: "14"},
+        "2023-05-06 13:14:15": {1: "2023", 2: "-", 3: "05", 4: "-", 5: "06", 6: "13", 7: "14", 8: "15"},
+        "2023:05:06 00:00:00": {1: "2023", 2: ":", 3: "05", 4: ":", 5: "06", 6: "00", 7: "00", 8: "00"},
+        "2023-05-06 25": {1: "2023", 2: "-", 3: "05", 4: "-", 5: "06", 6: "25"},
+        "last friday": None, "1 hour ago": None, "x": None,
+    }
+    for text, groups in scen.items():
+        def call(node, recv, args, it, env, text=text, groups=groups):
+            callee = str(node.get("callee", ""))
+            m = node.get("m")
+            k = node["k"]
+            if m == "captures":
+                return (interp.some({"__cap": groups}) if groups else interp.NONE,)
+            if k == "Index" and isinstance(recv, dict) and "__cap" in recv:
+                g = recv["__cap"].get(args[0])
+                if g is None:
+                    raise interp.Undecided("capture group %s absent (a panic in the analysed code)" % args[0])
+                return (g,)
+            if isinstance(recv, dict) and "__cap" in recv and m == "get" and args:
+                g = recv["__cap"].get(args[0])
+                return (interp.some({"__match": g}) if g is not None else interp.NONE,)
+            if isinstance(recv, dict) and "__match" in recv and m == "as_str":
+                return (recv["__match"],)
+            if m == "parse" and isinstance(recv, str):
+                try:
+                    return (interp.V("Result::Ok", [int(recv)]),)
+                except ValueError:
+                    return (interp.V("Result::Err", [interp.Opaque("parse error")]),)
+            if m == "with_ymd_and_hms" and len(args) == 6 and all(isinstance(a, int) for a in args):
+                return (interp.V("LocalResult::Single", [{"__dt": ((args[0], args[1], args[2]),) + tuple(args[3:])}]),)
+            if callee.endswith("Local::now") or callee.endswith("::now"):
+                return ({"__dt": ("today+0", 12, 30, 45), "__date": _Date()},)
+            if m == "date_naive" and isinstance(recv, dict):
+                return (recv.get("__date", _Date(ymd=recv["__dt"][0])),)
+            if m == "naive_local" and isinstance(recv, dict):
+                return (recv,)
+            if m == "and_hms_opt" and isinstance(recv, _Date) and len(args) == 3:
+                okv = 0 <= args[0] <= 23 and 0 <= args[1] <= 59 and 0 <= args[2] <= 59
+                return (interp.some({"__dt": (recv.key(),) + tuple(args)}) if okv else interp.NONE,)
+            if m in ("with_hour", "with_minute", "with_second") and isinstance(recv, dict) and "__dt" in recv and args:
+                d, h, mi, sc = recv["__dt"]
+                lim = 23 if m == "with_hour" else 59
+                if not (0 <= args[0] <= lim):
+                    return (interp.NONE,)
+                return (interp.some({"__dt": (d, args[0] if m == "with_hour" else h, args[0] if m == "with_minute" else mi, args[0] if m == "with_second" else sc)}),)
+            if m in ("hour", "minute", "second") and isinstance(recv, dict) and "__dt" in recv:
+                return (recv["__dt"][{"hour": 1, "minute": 2, "second": 3}[m]],)
+            if callee.endswith("try_days") and args and isinstance(args[0], int):
+                return (interp.some(_Days(args[0])),)
+            if k == "Path" or (k == "Call" and not node["args"]):
+                return None
+            if m == "checked_add_signed" and isinstance(recv, _Date) and args and isinstance(args[0], _Days):
+                return (interp.some(recv + args[0]),)
+            if callee.endswith("parse_date_string"):
+                if text == "last friday":
+                    return (interp.V("Result::Ok", [{"__dt": ("friday", 0, 0, 0)}]),)
+                if text == "1 hour ago":
+                    return (interp.V("Result::Ok", [{"__dt": ("today+0", 11, 30, 45)}]),)
+                return (interp.V("Result::Err", [interp.Opaque("no date")]),)
+            return None
+        try:
+            v = interp.Interp(call=call, max_steps=40000).run(hir, {pid: text})
+        except interp.Undecided as e:
+            out[text] = "undecided: %s" % e
             continue
-        info, m = groups[g]
-        s_var, f_var = start_chain[unit], finish_chain[unit]
-        some, none = info.get("some", {}), info.get("none", {})
-        checks = []
-        # absent: start = lo, finish = hi
-        ns, nf = none.get(s_var), none.get(f_var)
-        checks.append(("absent-start", ns is not None and ns["k"] == "Lit" and ns["v"] == lo,
-                       "component absent: start is %s, expected %d" % (render(ns) if ns else None, lo)))
-        checks.append(("absent-finish", nf is not None and nf["k"] == "Lit" and nf["v"] == hi,
-                       "component absent: finish is %s, expected %d" % (render(nf) if nf else None, hi)))
-        # present: start = parsed value, finish = start
-        ss, sf = some.get(s_var), some.get(f_var)
-        checks.append(("present-start", ss is not None and "parse" in render(ss),
-                       "component present: start is %s, expected the parsed capture" % (render(ss) if ss else None)))
-        checks.append(("present-finish", sf is not None and sf["k"] == "Path" and sf.get("res") == s_var,
-                       "component present: finish is %s, expected the same value as start" % (render(sf) if sf else None)))
-        for key, ok, msg in checks:
-            n += 1
-            ctx.obligation(ok)
-            if not ok:
-                ctx.violation("interval/%s/%s" % (unit, key), ctx.where(PARSE_DATETIME, m),
-                              "%s (capture group %d): %s" % (unit, g, msg))
-    ctx.covered("interval table (component present/absent -> start/finish) of parse_datetime", n,
-                distinct_keys=["%s/%s" % (u[0], k) for u in GROUP_SPEC.values() for k in ("as", "af", "ps", "pf")],
-                sample={"start": start_chain, "finish": finish_chain}, exhaustive=True)
-    # whole-day literals: today / yesterday / +-days
-    pairs = []
-    locs = Locals(hir)
-    for x in walk_exprs(hir):
-        if x["k"] == "Call" and x.get("ctor") and short(x["callee"], 1) == "Ok" and x["args"]:
-            t = peel(x["args"][0], methods=False)
-            if t["k"] == "Tup" and len(t["es"]) == 2:
-                vals = []
-                for e in t["es"]:
-                    d = locs.chase(e)
-                    hms = [c for c in walk_exprs(d) if c["k"] == "MCall" and c["m"] == "and_hms_opt"]
-                    vals.append(tuple(peel(a)["v"] for a in hms[0]["args"]) if hms and all(peel(a)["k"] == "Lit" for a in hms[0]["args"]) else None)
-                if vals[0] is not None or vals[1] is not None:
-                    pairs.append((vals, x))
-    for vals, x in pairs:
-        ok = vals[0] == (0, 0, 0) and vals[1] == (23, 59, 59)
+        if isinstance(v, interp.V) and v.name == "Result::Ok" and isinstance(v.args[0], tuple) and len(v.args[0]) == 2 and \
+                all(isinstance(x, dict) and "__dt" in x for x in v.args[0]):
+            out[text] = (v.args[0][0]["__dt"], v.args[0][1]["__dt"])
+        elif isinstance(v, interp.V) and v.name == "Result::Err":
+            out[text] = "error"
+        else:
+            out[text] = "unexpected: %r" % (v,)
+    return out
+
+
+def r2(ctx):
+    """the time interval of a date literal: parse_datetime evaluated (finite interpreter; regex, chrono and chrono_english
+    mocked by their contracts) on literals with 0..3 time components, the day words, signed day offsets, natural-language
+    dates and invalid input"""
+    res = _parse_datetime_scenarios(ctx)
+    d = (2023, 5, 6)
+    want = {
+        "today": (("today+0", 0, 0, 0), ("today+0", 23, 59, 59)), "yesterday": (("today-1", 0, 0, 0), ("today-1", 23, 59, 59)),
+        "+3": (("today+3", 0, 0, 0), ("today+3", 23, 59, 59)), "-2": (("today-2", 0, 0, 0), ("today-2", 23, 59, 59)),
+        "2023-05-06": ((d, 0, 0, 0), (d, 23, 59, 59)), "2023-05-06 13": ((d, 13, 0, 0), (d, 13, 59, 59)),
+        "2023-05-06 13:14": ((d, 13, 14, 0), (d, 13, 14, 59)), "2023-05-06 13:14:15": ((d, 13, 14, 15), (d, 13, 14, 15)),
+        "2023:05:06 00:00:00": ((d, 0, 0, 0), (d, 0, 0, 0)), "2023-05-06 25": "error",
+        "last friday": (("friday", 0, 0, 0), ("friday", 23, 59, 59)), "1 hour ago": (("today+0", 11, 30, 45), ("today+0", 11, 30, 45)), "x": "error",
+    }
+    n = 0
+    for text, w in want.items():
+        got = res.get(text)
+        n += 1
+        ok = got == w
         ctx.obligation(ok)
         if not ok:
-            ctx.violation("interval/whole-day", ctx.where(PARSE_DATETIME, x),
-                          "a whole-day literal yields the interval %s..%s instead of 00:00:00..23:59:59" % (vals[0], vals[1]))
-    ctx.covered("whole-day literals (today, yesterday, signed offsets)", len(pairs), distinct_keys=["pairs:%d" % len(pairs)])
-    ctx.floor(len(pairs), 3, "whole-day interval constructions", PARSE_DATETIME)
+            kind = "whole-day" if text in ("today", "yesterday", "+3", "-2") else ("natural" if text in ("last friday", "1 hour ago") else
+                                                                                    ("invalid" if w == "error" else "with_%s" % ["day", "hour", "minute", "second"][min(3, len(text.split(" ")[-1].split(":")) if " " in text else 0)]))
+            ctx.violation("interval/%s/%s" % (kind, text.replace(" ", "_")), ctx.where(PARSE_DATETIME),
+                          "the literal `%s` denotes %s, expected %s" % (text, got, w))
+    ctx.covered("time interval of date literals: parse_datetime evaluated on 13 literal shapes", n, distinct_keys=list(want), exhaustive=True)
 
 
 def r3(ctx):
